@@ -35,6 +35,7 @@ ASSUMPTIONS = [
     "wireguard mode's built-in DNS address 10.0.0.53:53 is exempt from the rules (virtual destination served by mitmproxy itself): excluded by precondition",
     "T1 shapes: <= 2 allow rules and <= 2 ignore rules; candidate availability patterns {address only, peername+address, address+Host, address+ClientHello SNI, address+client.sni, all five, none}",
     "parse_client_hello (kaitai) is summarised in the ClientTLSLayer contract by its outcomes (incomplete / a ClientHello / ValueError)",
+    "make_pipe contract: h11's ReceiveBuffer.maybe_extract_at_most(len(buf)) is summarised as 'returns the whole content, empties the buffer' (real method natively)",
     "tls.get_client_hello (reassembly of the ClientHello from TLS records) has no T1 contract: with symbolic fragment contents the nested slice terms cost 20-70 s of solver time per obligation (tried in three encodings); it is checked in T2 against an RFC 8446 reference on *every* record fragmentation of synthetic handshake streams (<= 9 bytes, complete / truncated / followed by another message, with partial trailing records), on a real OpenSSL ClientHello re-cut into 2-4 records, and end-to-end",
 ]
 
@@ -684,6 +685,26 @@ def bounded(tier, seed):
                 continue          # the documented minimum to recognise TLS
             if r != want:
                 b.fail("client_hello.sni_from_fragmented_hello", {"fragment_lengths": lens, "prefix_len": n, "total": len(data)}, f"expected {want!r}, got {r!r}")
+    # ---- (1c) tunnel bytes pipelined directly behind the CONNECT head (same TCP segment) to an ignored host
+    head = b"CONNECT example.com:80 HTTP/1.1\r\nHost: example.com:80\r\n\r\n"
+    for payload, lead in itertools.product([b"PING\r\n", b"line\n", b"\x00\x01\r\n\r\n", b"x\r", b"GET / HTTP/1.1\r\nHost: example.com\r\n\r\n", b"abc"], [b"", b"\r\n", b"\n"]):
+        for rules in (dict(ignore_hosts=[r"example\.com"]), dict(allow_hosts=[r"nomatch\.invalid"])):
+            b.case(("pipelined-behind-connect", payload, lead, tuple(rules)), nontrivial=True)
+            inp = {"pipelined": (lead + payload).decode("latin-1"), "rules": rules}
+            try:
+                p = _mk("regular", **rules)
+                p.feed(head + lead + payload)
+                got = b"".join(d for _, d in p.all_server_bytes())
+                p.feed(b"more\r\n")
+                got2 = b"".join(d for _, d in p.all_server_bytes())
+            except Exception as e:
+                b.fail("e2e.total", inp, f"raised {type(e).__name__}: {e}")
+                continue
+            # the leading CR/LF run directly behind the CONNECT head may be eaten; nothing else may change
+            if got not in (payload, lead + payload) or got2 != got + b"more\r\n":
+                b.fail("e2e.bytes_pipelined_behind_connect_relayed_untouched", inp, f"server received {got2!r}")
+            if any(h in FLOW_HOOKS for h in _hooks_after_preamble(p, [head])):
+                b.fail("e2e.ignored_connection_fires_no_flow_hooks", inp, str(p.hooks()))
     # ---- (2) end to end
     rule_sets = [("ignore.match", lambda d: dict(ignore_hosts=[_rx(d)]), True), ("ignore.nomatch", lambda d: dict(ignore_hosts=[r"nomatch\.invalid"]), False),
                  ("allow.match", lambda d: dict(allow_hosts=[_rx(d)]), False), ("allow.nomatch", lambda d: dict(allow_hosts=[r"nomatch\.invalid"]), True)]
@@ -763,3 +784,62 @@ def _e2e_class(label, segs, payload):
     if len(segs) > 1 and payload[:1] == b"\x16" and len(segs[0]) < 6:
         return "[first-segment-shorter-than-tls-record-header]"
     return ""
+
+
+# ---------------------------------------------------------------------------------------------
+# CONNECT to an ignored host: bytes the client pipelined directly behind the CONNECT head are "bytes received before the
+# decision".  Http1Connection.make_pipe hands them on: the property allows dropping the *leading* CR/LF run (superfluous
+# newlines after the CONNECT head, RFC 9112 §2.2 robustness) — every other byte, in particular trailing CR/LF, is payload.
+
+H1S = "mitmproxy.proxy.layers.http._http1:Http1Server"
+import h11._receivebuffer as _h11rb  # noqa: E402
+
+_H11_EXTRACT = [_h11rb.ReceiveBuffer.maybe_extract_at_most]      # boxed original (native summaries patch the class attribute)
+
+
+@scenario("make_pipe.hands_on_pipelined_tunnel_bytes", functions=[H1S + ".make_pipe", H1S + ".passthrough"])
+def s_make_pipe(vc):
+    from props.httpstream import mk_request
+    newlines = vc.case("superfluous_newlines", [b"", b"\r\n", b"\n", b"\r\n\r\n", b"\r"])
+    body = vc.sym_bytes("tunnel_bytes")
+    if vc.mode == "sym":
+        import z3
+        S = z3.ReSort(z3.StringSort())
+        first_ok = z3.Diff(z3.AllChar(S), z3.Union(z3.Re("\r"), z3.Re("\n")))
+        vc.assume(SBool(z3.InRe(body.t, z3.Union(z3.Re(""), z3.Concat(first_ok, z3.Star(z3.AllChar(S)))))))   # payload does not start with CR/LF
+    else:
+        vc.assume(body[:1] not in (b"\r", b"\n"))
+    buffered = (SBytes(newlines) if vc.mode == "sym" else newlines) + body
+    client = mk_client(vc)
+    ctx = mk_context(vc, client, mk_server(vc))
+    sid = vc.sym_int("stream_id", lo=1)
+    buf = vc.new("h11._receivebuffer:ReceiveBuffer", _data=bytearray(buffered) if vc.mode == "native" else buffered, _next_line_search=0, _multiple_lines_search=0)
+    lay = vc.new(H1S, context=ctx, conn=client, stream_id=sid, buf=buf, debug=None, _paused=None, _paused_event_queue=None,
+                 request=mk_request(vc), response=None, request_done=True, response_done=True)
+    def extract_all(v, self_, count):
+        """h11 ReceiveBuffer.maybe_extract_at_most(len(buf)): the whole content (None when empty), buffer emptied afterwards
+        (h11 deletes a bytearray slice in place, which the engine's immutable-bytes model of bytearray cannot express)"""
+        if v.mode == "native":
+            return _H11_EXTRACT[0](self_, count)
+        d = self_._data
+        self_._data = SBytes(b"")
+        if v.branch(len_(d) == 0):
+            return v.lift(None)
+        return d
+
+    vc.summary("h11._receivebuffer:ReceiveBuffer.maybe_extract_at_most", extract_all)
+    out = vc.call(H1S + ".make_pipe", lay)
+    vc.ensure("total", out.ok)
+    if not out.ok:
+        return
+    tr = out.trace
+    if vc.branch(len_(body) == 0):
+        vc.ensure("nothing_pipelined.nothing_handed_on", len(tr) == 0)
+    else:
+        vc.ensure("pipelined.one_data_event", len(tr) == 1 and is_cmd(tr[0], "ReceiveHttp") and is_cmd(tr[0].event, "RequestData"))
+        if len(tr) == 1 and is_cmd(tr[0], "ReceiveHttp"):
+            vc.ensure("pipelined.every_payload_byte_in_order", tr[0].event.data == body)
+            vc.ensure("pipelined.same_stream", tr[0].event.stream_id == sid)
+    st = (lay.fields if vc.mode == "sym" else lay.__dict__).get("state")
+    vc.ensure("later_bytes_pass_through", st is not None and (st.func.qualname.endswith(".passthrough") if vc.mode == "sym" else getattr(st, "__name__", "") == "passthrough"))
+    vc.ensure("buffer_drained", len_(lay.buf._data) == 0)
